@@ -326,7 +326,7 @@ def run_leg(env, leg, pid, tier, seed, replay):
                    "--threads", "1", "--shard", "%d/%d" % (i, shards), "--max-cases", str(n), "--time-budget", str(MIRI_SECONDS), "--out", o]
             procs.append((i, o, cmd, subprocess.Popen(cmd, cwd=env.harness, env=e, stdout=subprocess.PIPE, stderr=subprocess.STDOUT, text=True, errors="replace")))
         parts, bad = [], []
-        deadline = time.time() + 3000
+        deadline = time.time() + MIRI_SECONDS * 3 + 120  # a shard stuck in one long case is cut off (inconclusive shard)
         for i, o, cmd, p in procs:
             try:
                 out, _ = p.communicate(timeout=max(1, deadline - time.time()))
